@@ -550,16 +550,10 @@ def dir_ops(scn, addr, tgt, rng, want_success):
     add(("DirectoryNodeHandler", "POST", "rename"), "POST", U + "?t=rename&from_name=%s&to_name=%s" % (q(mv), q(n13)),
         t="rename", name=mv, to_name=n13)
     # relink into another directory: a writeable destination and a read-only one
-    sub = scn.walk(scn.root, ["sub"])
-    dests = []
-    if sub and sub[0].id != tgt.id:
-        dests.append(sub[0].rw)
-        dests.append(sub[0].ro)
-    else:
-        rt = scn.reg(scn.root)[0]
-        dests.append(rt.rw)
-        dests.append(rt.ro)
-    for dest in dests:
+    other = scn.reg(scn.root_caps[1])[0]
+    if other.id == tgt.id:
+        other = scn.reg(scn.root)[0]
+    for dest in (other.rw, other.ro):
         mv2 = rng.choice(files)
         add(("DirectoryNodeHandler", "POST", "relink"), "POST", U + "?t=relink&from_name=%s&to_dir=%s" % (q(mv2), q(dest)),
             t="relink", name=mv2, to_dir=dest)
@@ -858,14 +852,14 @@ def scenario(run, si):
                 break
         # relink from a writeable directory into a read-only destination: refused
         rt = scn.reg(scn.root)[0]
-        sub = scn.walk(scn.root, ["sub"])
-        if sub is not None:
+        other = scn.reg(scn.root_caps[1])[0]
+        if rt.kids:
             victim = sorted(rt.kids)[0]
             addr = Addr(scn, scn.root, [], "write-cap")
             op = {"key": ("DirectoryNodeHandler", "POST", "relink"), "meth": "POST", "modifying": True, "watch": rt,
-                  "http": ("POST", addr.url + "?t=relink&from_name=%s&to_dir=%s" % (q(victim), q(sub[0].ro)), b"", ()),
-                  "model": {"t": "relink", "name": victim, "to_dir": sub[0].ro}}
-            do_request(run, scn, si, addr, op, [sub[0].ro], False, "dir/relink-into-readonly")
+                  "http": ("POST", addr.url + "?t=relink&from_name=%s&to_dir=%s" % (q(victim), q(other.ro)), b"", ()),
+                  "model": {"t": "relink", "name": victim, "to_dir": other.ro}}
+            do_request(run, scn, si, addr, op, [other.ro], False, "dir/relink-into-readonly")
         ctx.count("http-requests", web.requests)
         for e in g.logged_errors:
             ctx.count("logged:" + str(e)[:60])
